@@ -401,7 +401,7 @@ func TestC18_Expand(t *testing.T) {
 			c.Guard("Decode(Expand)", func() { got, gdiags = hcldec.Decode(dynblock.Expand(f.Body, ctx), spec, ctx) })
 			implied := hcldec.ImpliedType(spec)
 			if !ref.Conforms(got.Type(), implied.WithoutOptionalAttributesDeep()) {
-				if !(hasMultiLabelBlockMap(ms) && c.Known("blockmap-multilabel-empty-type")) && !(hasInconsistentTypesDiag(gdiags) && c.Known("blocklist-inconsistent-types-returns-dynamicval")) {
+				if !(hasMultiLabelBlockMap(ms) && c.Known("blockmap-multilabel-empty-type")) && !(gdiags.HasErrors() && tupleBecameList(got.Type(), implied.WithoutOptionalAttributesDeep()) && c.Known("blocklist-unifies-nested-tuples-to-list")) && !(hasInconsistentTypesDiag(gdiags) && c.Known("blocklist-inconsistent-types-returns-dynamicval")) {
 					c.Failf("type-nonconforming", "decoded value of type %#v does not conform to the implied type %#v (%s)", got.Type(), implied, diagStr(gdiags))
 				}
 			}
